@@ -81,9 +81,9 @@ func c11Owners(c *chain.Chain, ch c11Change) (owners []string, known bool) {
 				var n rnstypes.Names
 				if err := c.Enc.Unmarshal(bz, &n); err != nil {
 					owners = append(owners, "?undecodable name")
-				} else {
+				} else if n.Expires >= c.Height {
 					owners = append(owners, n.Value)
-				}
+				} // an expired name belongs to nobody: anybody may register it anew
 			}
 			return owners, true
 		}
@@ -336,6 +336,11 @@ func runC11History(rc *RunCtx) {
 			{"BlockSenders", 2, false, func() sdk.Msg {
 				l := [][]string{{ob}, {fb}, {ownerName}, {ob, tb}, {tb, sb}, {}}
 				return &notiftypes.MsgBlockSenders{Creator: sb, ToBlock: l[rc.Intn(len(l))]}
+			}},
+			{"RegisterName", 2, sName, func() sdk.Msg {
+				// the stranger registers the owner's lapsed name (anybody may) or tries one of its live names (nobody may);
+				// whatever happens, the owner's primary-name pointer and live names are not the stranger's to move
+				return &rnstypes.MsgRegisterName{Creator: sb, Name: pickS(ownerExpired, ownerExpired, ownerName, ownerName2), Years: 1, Data: "{}", SetPrimary: rc.Chance(0.6)}
 			}},
 			{"MakePrimary", 2, sName, func() sdk.Msg {
 				return &rnstypes.MsgMakePrimary{Creator: sb, Name: pickS(ownerName, ownerName2, ownerExpired, ownerExpired, strangerName, strings.ToUpper(ownerName))}
